@@ -665,6 +665,10 @@ func allowedCategories(reason string) map[string]bool {
 
 // paramOnlyRead: the pointer parameter is only loaded from and compared, never stored through or passed on.
 func paramOnlyRead(p *ssa.Parameter) bool {
+	return paramOnlyReadN(p, 0)
+}
+
+func paramOnlyReadN(p *ssa.Parameter, depth int) bool {
 	refs := p.Referrers()
 	if refs == nil {
 		return true
@@ -680,6 +684,21 @@ func paramOnlyRead(p *ssa.Parameter) bool {
 				return false
 			}
 		case *ssa.DebugRef:
+		case ssa.CallInstruction:
+			// handed on unchanged to a function of this package that only reads through it
+			g := x.Common().StaticCallee()
+			if g == nil || fnPkgPath(g) != zygoPath || len(g.Blocks) == 0 || depth >= 3 || x.Common().Value == ssa.Value(p) {
+				return false
+			}
+			args := x.Common().Args
+			if len(args) != len(g.Params) {
+				return false
+			}
+			for ai, a := range args {
+				if a == ssa.Value(p) && !paramOnlyReadN(g.Params[ai], depth+1) {
+					return false
+				}
+			}
 		default:
 			return false
 		}
